@@ -23,7 +23,10 @@ type History struct {
 	AddValAt  int64
 	ParamAt   int64
 	RetainAt  int64
-	GenTime   time.Time
+	// the retain height the application returns at RetainAt, relative to that height: -1 keeps the previous block,
+	// 0 keeps only the block being committed, +1 lies above the tip (the block store refuses it)
+	RetainDelta int64
+	GenTime     time.Time
 	PowerSelf int64
 	// four-validator mode: the node is validator 0 of 4, the others are played by the harness
 	// at the first restart the application reports an older committed height (restored from its own older state)
@@ -50,6 +53,7 @@ func GenHistory(t *rapid.T) History {
 	h.AddValAt = int64(rapid.IntRange(0, int(h.Heights)).Draw(t, "addValAt")) // 0 = never
 	h.ParamAt = int64(rapid.IntRange(0, int(h.Heights)).Draw(t, "paramAt"))
 	h.RetainAt = int64(rapid.IntRange(0, int(h.Heights)+1).Draw(t, "retainAt"))
+	h.RetainDelta = rapid.SampledFrom([]int64{-1, -1, -1, -2, 0, 0, 1}).Draw(t, "retainDelta")
 	h.GenTime = time.Now().Add(-time.Hour).UTC()
 	if rapid.IntRange(0, 3).Draw(t, "initialHeight") == 0 {
 		h.Initial = int64(rapid.IntRange(2, 50).Draw(t, "initial"))
@@ -111,7 +115,7 @@ func (h History) NewNodeHome() (*Persist, error) {
 			pl = &lib.HeightPlan{}
 			p.App.Plans[h.off(h.RetainAt)] = pl
 		}
-		pl.RetainHeight = h.off(h.RetainAt) - 1
+		pl.RetainHeight = h.off(h.RetainAt) + h.RetainDelta
 	}
 	return p, nil
 }
@@ -314,6 +318,9 @@ func RunCrash(h History, k int, cutFrac float64, recoveryCrashes []int) (*Result
 				if v := CheckCursors(n); v != "" {
 					res.fail("C05", fmt.Sprintf("after recovery from crashes %v: %s", res.Crashes, v))
 				}
+				if v := CheckStores(n); v != "" {
+					res.fail("C18", fmt.Sprintf("after recovery from crashes %v: %s", res.Crashes, v))
+				}
 				if inc == 1 {
 					res.Recovered = fingerprint(n.CS)
 					res.compareReplay(marks, walRecs, walEnd, n)
@@ -334,6 +341,9 @@ func RunCrash(h History, k int, cutFrac float64, recoveryCrashes []int) (*Result
 			alive, reached := h.drive(n, scripts, target, mk, &res.Trace)
 			if alive {
 				n.Stop()
+				if v := CheckStores(n); v != "" {
+					res.fail("C18", fmt.Sprintf("at the end of incarnation %d (crashes so far %v): %s", inc, res.Crashes, v))
+				}
 				// C15: what this incarnation logged with an acknowledged sync must be readable now (a restart that
 				// left a torn record in place would have appended behind it)
 				if v := CheckWALReadable(n); v != "" {
@@ -576,6 +586,65 @@ func CheckCursors(n *PNode) string {
 	}
 	if ah > 0 && !bytes.Equal(st.AppHash, ahash) {
 		return fmt.Sprintf("application hash disagrees at height %d: state %X, application %X", ah, st.AppHash, ahash)
+	}
+	return ""
+}
+
+// CheckStores is the C18 statement evaluated on a node's stores: between the block store's base and height every
+// block, its metadata, the commit for it (for the tip the seen commit) and its hash index entry load and agree, and
+// the state store produces the validator set and the consensus parameters of every height in that range (with the
+// hashes the headers commit to); the commit verifies for the block under that validator set.
+func CheckStores(n *PNode) string {
+	bs, ss := n.BlockStore, n.StateStore
+	base, height := bs.Base(), bs.Height()
+	if height == 0 {
+		return ""
+	}
+	if base <= 0 || base > height {
+		return fmt.Sprintf("block store range [%d,%d] is not a range", base, height)
+	}
+	chainID := n.P.GenDoc.ChainID
+	for h := base; h <= height; h++ {
+		meta := bs.LoadBlockMeta(h)
+		if meta == nil {
+			return fmt.Sprintf("block meta %d missing (range [%d,%d])", h, base, height)
+		}
+		blk := bs.LoadBlock(h)
+		if blk == nil {
+			return fmt.Sprintf("block %d cannot be loaded (range [%d,%d])", h, base, height)
+		}
+		if !bytes.Equal(blk.Hash(), meta.BlockID.Hash) {
+			return fmt.Sprintf("block %d hashes to %X, its meta says %X", h, blk.Hash(), meta.BlockID.Hash)
+		}
+		if byHash := bs.LoadBlockByHash(meta.BlockID.Hash); byHash == nil || byHash.Height != h {
+			return fmt.Sprintf("hash index entry of block %d missing or wrong (range [%d,%d])", h, base, height)
+		}
+		var commit *types.Commit
+		if h < height {
+			commit = bs.LoadBlockCommit(h)
+		} else {
+			commit = bs.LoadSeenCommit(h)
+		}
+		if commit == nil {
+			return fmt.Sprintf("commit for block %d missing (tip %d, range [%d,%d])", h, height, base, height)
+		}
+		vals, err := ss.LoadValidators(h)
+		if err != nil {
+			return fmt.Sprintf("state store cannot produce the validator set of height %d (block store range [%d,%d]): %v", h, base, height, err)
+		}
+		if !bytes.Equal(vals.Hash(), blk.ValidatorsHash) {
+			return fmt.Sprintf("validator set stored for height %d hashes to %X, header says %X", h, vals.Hash(), blk.ValidatorsHash)
+		}
+		params, err := ss.LoadConsensusParams(h)
+		if err != nil {
+			return fmt.Sprintf("state store cannot produce the consensus params of height %d (block store range [%d,%d]): %v", h, base, height, err)
+		}
+		if !bytes.Equal(types.HashConsensusParams(params), blk.ConsensusHash) {
+			return fmt.Sprintf("consensus params stored for height %d do not hash to the header's ConsensusHash", h)
+		}
+		if err := vals.VerifyCommit(chainID, meta.BlockID, h, commit); err != nil {
+			return fmt.Sprintf("commit stored for block %d does not verify for it: %v", h, err)
+		}
 	}
 	return ""
 }
